@@ -436,6 +436,40 @@ def analyse(u, res):
     return {"obligations": obs, "unit_error": None, "smt_ms": smt_ms, "errors": errs, "unattributed": unattributed, "verified": vr.get("verified"), "nerrors": vr.get("errors")}
 
 
+def isolate_rejected(u, an):
+    """When Verus rejects the unit (type error, unsupported construct) and every such diagnostic lies inside the
+    text of extracted functions, those functions are turned into `external_body` declarations carrying the same
+    signature and contract (their callers in the unit are then judged against the contract, as for any callee) and
+    the obligations they stand for are reported undecided; the rest of the unit is decided by a second run.
+    -> {ob: reason} of the functions set aside, or None when the rejection cannot be attributed"""
+    errs = [e for e in an.get("errors", []) if classify(e["msg"]) == "tool"]
+    if not errs:
+        return None
+    hit = {}
+    for e in errs:
+        if e["line"] is None:
+            return None
+        ch = None
+        for c in u.fns:
+            if c.l0 <= e["line"] <= c.l1:
+                ch = c
+                break
+        if ch is None:
+            return None
+        hit.setdefault(id(ch), (ch, []))[1].append(e["msg"])
+    out = {}
+    for ch, msgs in hit.values():
+        t = ch.text
+        m = re.search(r"\n\{[ \t]*\n", t)
+        sig = re.search(r"^[ \t]*(pub(\([a-z]+\))?\s+)?(const\s+)?fn\s", t, re.M)
+        if not m or not sig or sig.start() > m.start():
+            return None
+        ch.text = t[:sig.start()] + "#[verifier::external_body]\n" + t[sig.start():m.start()] + "\n{ unimplemented!() }\n"
+        out[ch.ob] = "verus rejected this function (the rest of the unit is decided with it as a declaration): " + "; ".join(msgs[:2])[:400]
+    u.render()
+    return out
+
+
 def unit_hash(u):
     h = hashlib.sha256()
     for c in u.chunks:
